@@ -176,6 +176,10 @@ def finish(ctx, level, explanation, assumptions, t0, extra_cov=None):
             kf.append(v)
         else:
             real.append(v)
+    # evidence committed under /verif/evidence always describes /repo itself: a run against a scratch copy (MTSA_REPO) writes next to that copy
+    alt = os.environ.get("MTSA_REPO")
+    if alt and os.path.realpath(alt) != os.path.realpath("/repo") and not os.environ.get("MTSA_EVIDENCE_DIR"):
+        os.environ["MTSA_EVIDENCE_DIR"] = os.path.join(alt, "evidence")
     evdir = os.environ.get("MTSA_EVIDENCE_DIR") or os.path.join(VERIF, "evidence")
     repdir = os.path.join(os.path.dirname(evdir), "reports") if os.environ.get("MTSA_EVIDENCE_DIR") else os.path.join(VERIF, "reports")
     os.makedirs(evdir, exist_ok=True)
